@@ -60,7 +60,7 @@ impl Property for C06 {
     fn components_stubbed(&self) -> Vec<&'static str> { vec!["GossipManager's TCP loop -> gossip pump over SimNet (same calls: drain_outbound, serialize, deserialize, apply_remote_deltas)", "clients call ReplicatedShardedState::execute directly (no connection handler in the replicated server either)", "clock stands still (no eviction ticks)"] }
     fn assumptions(&self) -> Vec<&'static str> { vec!["premise of the property is established by construction: after the fault phase every emitted delta is handed to every node", "the agreed value is computed from the deltas seen on the wire: greatest (time, replica) stamp per key / per hash field"] }
     fn required_probes(&self) -> Vec<&'static str> { vec!["same_key_written_at_two_nodes", "message_reordered", "message_lost_then_redelivered", "partitioned", "hash_written"] }
-    fn runs(&self, tier: Tier) -> u64 { match tier { Tier::Quick => 1200, Tier::Thorough => 60_000 } }
+    fn runs(&self, tier: Tier) -> u64 { match tier { Tier::Quick => 50000, Tier::Thorough => 1500000 } }
 
     fn run(&self, src: &mut Src, ctx: &RunCtx) -> RunReport {
         let mut rep = RunReport::default();
